@@ -120,8 +120,10 @@ def wl_cellref(seed):
     have to look it up in the workbook of the formula that called them.  Every workbook of this kind has the same
     sheet name and addresses, and values of its own."""
     k = 1 + seed % 9
+    # (B3: OFFSET with an array argument hands INDEX an array of references, and the argument cell D1 is evaluated
+    # between the moment the formula is loaded and the moment INDEX looks the cell up)
     cells = {'A1': 11 * k, 'A2': 7 * k, 'B1': '=CELL("contents",OFFSET(A1,0,0))', 'B2': '=INDEX(OFFSET(A1,0,0,2,1),2,1)',
-             'C1': '=B1+B2'}
+             'D1': '=A2*0', 'B3': '=INDEX(OFFSET(A1,{0,0;0,0},D1),2,1)', 'C1': '=B1+B2+B3'}
     spec = {'sheets': [['Data Sheet', cells]], 'names': {}, 'arrays': [], 'calc': None}
     return {'name': 'cellref', 'spec': spec,
             'calls': [('evaluate', 'Data Sheet!C1', {}), ('set_value', 'Data Sheet!A1', {'value': 5 * k}),
